@@ -26,3 +26,15 @@ Inductive rs_result : Type :=
 | RsPanic
 | RsErr (e : string)
 | RsOk (field : N) (v : f64).
+
+(* outcome of a translated usize computation (Gen/ArraysRs.v): an unchecked
+   `+` / `*` / `+=` / `*=` that overflows is a panic; `checked_add` /
+   `checked_mul` followed by `.ok_or(E)?` is the error E; `return Err(E)` is
+   the error E *)
+Inductive rs_res (A : Type) : Type :=
+| UPanic
+| UErr (e : string)
+| UOk (v : A).
+Arguments UPanic {A}.
+Arguments UErr {A} e.
+Arguments UOk {A} v.
